@@ -7,10 +7,12 @@ out=selftest/results.tsv; : > $out
 job() {
   f=$1; b=$(basename "$f" .diff); id=${b%%_*}
   case "$f" in seeded/*) id=$(basename "$(dirname "$f")"); id=${id%%-*}; b="seed:$(basename "$(dirname "$f")")"
-      w=$(python3 -c "import json,sys; print(json.load(open(sys.argv[1])).get('detect_with',''))" "$(dirname "$f")/meta.json" 2>/dev/null); [ -n "$w" ] && id=$w;; esac   # a seed whose defect belongs to another property's check
-  t0=$(date +%s); r=$(./selftest/run_mutant.sh "$f" "$id" 2>&1); rc=$?; t1=$(date +%s)
+      w=$(python3 -c "import json,sys; print(json.load(open(sys.argv[1])).get('detect_with',''))" "$(dirname "$f")/meta.json" 2>/dev/null); [ -n "$w" ] && id=$w
+      tier=$(python3 -c "import json,sys; print(json.load(open(sys.argv[1])).get('detect_tier','quick'))" "$(dirname "$f")/meta.json" 2>/dev/null);; esac   # a seed whose defect belongs to another property's check
+  t0=$(date +%s); r=$(./selftest/run_mutant.sh "$f" "$id" ${tier:-quick} 2>&1); rc=$?; t1=$(date +%s)
   v=$(echo "$r" | grep -c "^VIOLATION"); k=$(echo "$r" | grep -c "^KNOWN-FINDING")
   first=$(echo "$r" | grep -A1 -m1 "^VIOLATION" | tail -1 | cut -c1-160 | tr '\t|' '  ')
+  [ "${tier:-quick}" != quick ] && b="$b ($tier tier)"
   printf '%s\t%s\t%s\t%s\t%s\t%s\n' "$b" "$id" "$rc" "$v" "$((t1-t0))" "$first" >> selftest/results.tsv
 }
 export -f job
